@@ -4,6 +4,7 @@ import (
 	"encoding/binary"
 	"fmt"
 	"hash/fnv"
+	"sort"
 )
 
 // LSHIndex implements MinHash LSH with banding
@@ -64,6 +65,8 @@ func (idx *LSHIndex) FindCandidates(signature *MinHashSignature) []string {
 	for id := range ids {
 		out = append(out, id)
 	}
+	// Candidates are verified in the order returned: keep it independent of map order
+	sort.Strings(out)
 	return out
 }
 
